@@ -24,9 +24,13 @@ import time
 VERIF = os.path.dirname(os.path.dirname(os.path.abspath(__file__)))
 SPEC = os.path.join(VERIF, "spec")
 HARNESS = os.path.join(VERIF, "harness")
-RUN = os.path.join(VERIF, "run")
-REPLAYS = os.path.join(VERIF, "replays")
-EVIDENCE = os.path.join(VERIF, "evidence")
+# The registered commands use the defaults: /repo's working tree, /verif/run, /verif/evidence.
+# bin/seedrun overrides them to judge a seeded change in a scratch worktree without touching
+# /repo or the committed evidence.
+REPO = os.environ.get("VERIF_REPO") or "/repo"
+RUN = os.environ.get("VERIF_RUN") or os.path.join(VERIF, "run")
+REPLAYS = os.environ.get("VERIF_REPLAYS") or os.path.join(VERIF, "replays")
+EVIDENCE = os.environ.get("VERIF_EVIDENCE") or os.path.join(VERIF, "evidence")
 KNOWN = os.path.join(VERIF, "known_findings.json")
 BIN = os.path.join(RUN, "bin", "gotsverif")
 
@@ -101,11 +105,19 @@ class Ctx:
 
 def build_harness(ctx):
     os.makedirs(os.path.dirname(BIN), exist_ok=True)
-    gosum = "/repo/go.sum"
+    src = HARNESS
+    if REPO != "/repo":
+        # build a private copy of the harness whose go.mod points at the other tree
+        src = os.path.join(RUN, "harness-src")
+        shutil.rmtree(src, ignore_errors=True)
+        shutil.copytree(HARNESS, src)
+        gm = open(os.path.join(src, "go.mod")).read().replace("=> /repo", "=> " + REPO)
+        open(os.path.join(src, "go.mod"), "w").write(gm)
+    gosum = os.path.join(REPO, "go.sum")
     if os.path.exists(gosum):
-        shutil.copy(gosum, os.path.join(HARNESS, "go.sum"))
+        shutil.copy(gosum, os.path.join(src, "go.sum"))
     t = time.time()
-    rc, out = sh(["go", "build", "-tags", "verif", "-o", BIN, "."], cwd=HARNESS, timeout=900)
+    rc, out = sh(["go", "build", "-tags", "verif", "-o", BIN, "."], cwd=src, timeout=900)
     if rc != 0:
         raise Broken("harness does not build against /repo's working tree:\n" + out[-3000:])
     ctx.notes.append("harness built in %.1fs" % (time.time() - t))
